@@ -264,4 +264,46 @@ def reverse (s : List Nat) (centerp : Bool) : Except Err Rev := do
     -- `(tile_ * x1) / unit` in `real`: the product exceeds 2^53 at the finest precisions and rounds
     pure ⟨d.zone, d.northp, (ftile * F64.ofInt d.x1) / F64.ofInt d.unit, (ftile * F64.ofInt d.y1) / F64.ofInt d.unit, d.prec⟩
 
+
+/-! ## `MGRS::Decode` — the public splitter
+
+`find_first_not_of(digits_)` / `find_first_of(alpha_)` test plain membership of the byte in the C string (no case folding;
+`alpha_` lists both cases and leaves out I and O; a NUL byte is in neither set). -/
+
+def alpha : List Char := mgrs_alphaS.toList
+
+def inSet (t : List Char) (c : Nat) : Bool := t.any fun ch => ch.toNat == c
+
+structure Parts where
+  gridzone : List Nat
+  block : List Nat
+  easting : List Nat
+  northing : List Nat
+deriving DecidableEq, Repr
+
+def decode (s : List Nat) : Except Err Parts :=
+  let n := s.length
+  if n ≥ 3 && (s.take 3).map upper == [73, 78, 86] then .ok ⟨s.take 3, [], [], []⟩
+  else
+    let p0 := (s.takeWhile (inSet digits)).length
+    if p0 = n then .error "ref does not contain alpha chars"
+    else if !(p0 ≤ 2) then .error "ref does not start with 0-2 digits"
+    else if !(inSet alpha (s.getD p0 0)) then .error "ref contains non alphanumeric chars"
+    else
+      let p1 := p0 + ((s.drop p0).takeWhile (inSet alpha)).length
+      if !(p1 = p0 + 1 ∨ p1 = p0 + 3) then .error "ref must contain 1 or 3 alpha chars"
+      else if p1 = p0 + 1 ∧ p1 < n then .error "ref contains junk after 1 alpha char"
+      else if p1 < n ∧ !((s.drop p1).all (inSet digits)) then .error "ref contains junk at end"
+      else if (n - p1) % 2 = 1 then .error "ref must end with even no of digits"
+      else .ok ⟨s.take (p0 + 1), (s.drop (p0 + 1)).take (p1 - (p0 + 1)), (s.drop p1).take ((n - p1) / 2), s.drop (p1 + (n - p1) / 2)⟩
+
+/-! ## GeoCoords::MGRSRepresentation / AltMGRSRepresentation -/
+
+/-- `prec = max(-1, min(6, prec) + 5)` -/
+def repPrec (prec : Int) : Int := max (-1) (min 6 prec + 5)
+
+/-- `MGRS::Forward(zone, _northp, easting, northing, _lat, prec', mgrs)` on the fields of the object -/
+def mgrsRepresentation (zone : Int) (northp : Bool) (x y lat : F64) (prec : Int) : Except Err (List Char) :=
+  forwardLat zone northp x y lat (repPrec prec)
+
 end GeoVerif.MGRS
